@@ -15,7 +15,7 @@ ENGINE = 'cv-fault'
 BUDGET_S = {'quick': 170, 'thorough': 1500}
 CASE_TIMEOUT_S = 600
 STUBS = ['pathos ParallelPool -> SimPool', 'cli.common.signal -> FakeSignal (never fires in this engine)']
-PROBES = ['fault_entry', 'fault_mid_unit', 'fault_gather', 'multi_fault', 'all_units_of_tx', 'every_unit',
+PROBES = ['corpus_case', 'fault_entry', 'fault_mid_unit', 'fault_gather', 'multi_fault', 'all_units_of_tx', 'every_unit',
           'threads_gt_1', 'fusion_unit_failed', 'circ_unit_failed', 'main_unit_failed', 'absorbed',
           'abort_checked', 'later_unit_after_failed_unit', 'parser_rows_case']
 RULE = ('case = generated reference + records (mix biased to fusions/circRNAs so transcripts have several units); '
@@ -52,7 +52,10 @@ def gen(seed, idx):
     rng = R.case_rng(seed, ENGINE, idx)
     cfg = cvcase.gen_config(rng)
     cfg['noncanonical_transcripts'] = rng.random() < 0.15
-    case = cvcase.gen_case(rng, config=cfg, mix=MIX)
+    if rng.random() < 0.2:
+        case = cvcase.gen_corpus_case(rng, config=cfg)
+    else:
+        case = cvcase.gen_case(rng, config=cfg, mix=MIX)
     return case, rng
 
 
@@ -146,12 +149,18 @@ def judge(case, f0, a, b, a2, faults):
                          'example': [(s, ea[s], eb[s]) for s in diff[:2]],
                          'table_rows_differ': ta != tb, 'fired': sorted(fired)}))
     # 3. sandwich
-    failed_uids = {u.split('|', 2)[2] for u in fired if not u.startswith('gather|')}
+    # attribution is by what each unit RETURNED in the fault-free run, not by header backbones: a fusion unit also
+    # returns donor-side peptides labelled with the plain transcript id (seen under --noncanonical-transcripts,
+    # where the main unit does not run at all), so a header does not identify the producing unit
     gather_txs = {u.split('|')[1] for u in fired if u.startswith('gather|')}
-    units_of_gather_tx = {u[2] for u in f0.units if u[1] in gather_txs}
-    dead = failed_uids | units_of_gather_tx
-    must = {s for s, es in f0.fasta.items() if any(backbone(e) not in dead for e in es)}
+    dead = {u for u in fired if not u.startswith('gather|')}
+    dead |= {unit_key(u) for u in f0.units if u[1] in gather_txs}
     s0 = set(f0.fasta)
+    must = set()
+    for key, peps in f0.unit_peptides.items():
+        if key not in dead:
+            must.update(peps)
+    must &= s0
     if not sa <= s0:
         out.append(('sandwich', f'sandwich:invented:{kinds_tag}',
                     {'invented': sorted(sa - s0)[:5], 'n': len(sa - s0), 'fired': sorted(fired)}))
@@ -220,6 +229,8 @@ def run_case(seed, task, tier):
             out['invalid_reason'] = f0.exc or 'no units'
             return out
         out['steps'] += sum(u[3] or 0 for u in f0.units)
+        if case['stats'].get('corpus'):
+            probes['corpus_case'] = 1
         n_plans = 2 if tier == 'quick' else 3
         for pl in range(n_plans):
             prng = R.case_rng(seed, ENGINE, idx, f'plan{pl}')
